@@ -177,19 +177,44 @@ Definition accounted_sites : list string := [
   "notations/jschema/checker/check_schema.go|checkSchema.checkLinksOfNode|c.foundTypeNames|delete";
   (* copying entries with distinct keys into another map: copy_all_order_free *)
   "notations/jschema/loader/compiler_all_of.go|CompileAllOf|c.foundTypes|call:rootSchema.AddType";
-  "notations/jschema/loader/compiler_all_of.go|allOfConstraintCompiler.extendWith|schem.TypesList()|mapset";
-  (* first key that matches, keys mutually exclusive (one `type` rule per node gives at most one of
-     email/uri/date/datetime/uuid/any): first_match_order_free *)
-  "notations/jschema/checker/validate_literal_value.go|checkJsonType|stringBasedTypes|other";
-  "notations/jschema/ischema/base_node.go|baseNode.SchemaType|constraintToSchemaTypeMap|other";
-  "notations/jschema/loader/compiler_basic.go|schemaCompiler.allowedConstraintCheck|bannedConstraints|other"
+  "notations/jschema/loader/compiler_all_of.go|allOfConstraintCompiler.extendWith|schem.TypesList()|mapset"
 ].
+(* loops that stop at the first key that matches (first_match_order_free): the translator lists the keys of the map
+   literal; the loop is accounted for when it is at one of these places AND every key belongs to one family of
+   constraints of which a node can carry at most one - those that its single `type` rule turns into *)
+Definition first_match_places : list string := [
+  "notations/jschema/checker/validate_literal_value.go|checkJsonType|stringBasedTypes";
+  "notations/jschema/ischema/base_node.go|baseNode.SchemaType|constraintToSchemaTypeMap";
+  "notations/jschema/loader/compiler_basic.go|schemaCompiler.allowedConstraintCheck|bannedConstraints"
+].
+Definition exclusive_family : list string := [
+  "constraint.AnyConstraintType"; "constraint.DateConstraintType"; "constraint.DateTimeConstraintType";
+  "constraint.EmailConstraintType"; "constraint.UriConstraintType"; "constraint.UuidConstraintType"
+].
+
+Fixpoint split_at (sep : Ascii.ascii) (s cur : string) : list string :=
+  match s with
+  | EmptyString => [cur]
+  | String c r => if Ascii.eqb c sep then cur :: split_at sep r EmptyString else split_at sep r (cur ++ String c EmptyString)
+  end.
+Definition fm_prefix : string := "first-match:".
+Definition site_ok (s : string) : bool :=
+  smem s accounted_sites ||
+  match split_at (Ascii.ascii_of_nat 124) s EmptyString with
+  | [file; fn; expr; class] =>
+    String.prefix fm_prefix class &&
+    smem (file ++ "|" ++ fn ++ "|" ++ expr) first_match_places &&
+    forallb (fun k => smem k exclusive_family)
+            (split_at (Ascii.ascii_of_nat 44) (substring (String.length fm_prefix) (String.length class) class) EmptyString)
+  | _ => false
+  end.
+
 (* unnamed types are named after a heap address; the name must never reach an observable *)
 Definition accounted_pointer_sites : list string := ["notations/jschema/ischema/ischema.go|ISchema.AddUnnamedType"].
 
-Lemma sites_accounted : forall s, In s map_range_sites -> smem s accounted_sites = true.
+Lemma sites_accounted : forall s, In s map_range_sites -> site_ok s = true.
 Proof.
-  assert (H : forallb (fun s => smem s accounted_sites) map_range_sites = true) by (vm_compute; reflexivity).
+  assert (H : forallb site_ok map_range_sites = true) by (vm_compute; reflexivity).
   intros s Hs. rewrite forallb_forall in H. auto.
 Qed.
 Lemma pointer_sites_accounted : forall s, In s pointer_format_sites -> smem s accounted_pointer_sites = true.
